@@ -8,9 +8,16 @@ from common import dec_val, run_impl
 
 TERMS = [
     ("A", '"a"', "a"), ("B", "/[bc]/", "[bc]"), ("C", '"é"', "é"), ("D", '"ü"', "ü"), ("E", '"ab"', "ab"),
-    ("F", '"s"i', "(?i:s)"), ("G", '"ß"i', "(?i:ß)"), ("H", "/a+b/", "a+b"), ("I", "/[^a]/", "[^a]"), ("J", '"€"', "€"),
+    ("F", '"s"i', "(?i:s)"), ("G", '"ß"i', "(?i:ß)"), ("H", "/a+b/", "a+b"), ("I", "/[^a]/", "(?=[\\t-\\r -~])[^a]"), ("J", '"€"', "€"),
+    # multi-byte characters leaving one automaton state whose encodings share some but not all bytes
+    # (e2 82 ac / e8 82 b1; f0 9f 9f a0 repeats a continuation byte; f0 9f 91 8b / f0 9f 98 8a share a prefix)
+    ("K", "/[€肱]/", "[€肱]"), ("L", '"🟠"', "🟠"), ("M", "/[👋😊é]/", "[👋😊é]"),
+    # terminal names of the form <NAME>_<k>: k is also a state number of NAME's automaton
+    ("E_1", '"x"', "x"), ("E_2", '"c"', "c"), ("H_1", '"s"', "s"), ("H_2", '"x"', "x"), ("A_1", '"c"', "c"), ("B_0", '"x"', "x"),
 ]
-ALPHA = list("abcsSé ü€ß")
+RELATED = {"E": ["E_1", "E_2"], "H": ["H_1", "H_2"], "A": ["A_1"], "B": ["B_0"]}
+# (negated classes are relative to the default character set, string.printable: the oracle pattern of I says so)
+ALPHA = list("abcsSé ü€ßx肱🟠👋😊")
 
 
 def viol(ctx, sig, what, obj):
@@ -76,6 +83,12 @@ def can_be_empty(e, rules):
 def gen_grammar(rng):
     nterm = rng.randint(2, 4)
     terms = rng.sample(TERMS, nterm)
+    byname = {t[0]: t for t in TERMS}
+    for t in list(terms):  # a terminal and its numbered namesake together
+        if t[0] in RELATED and rng.random() < 0.6:
+            o = byname[rng.choice(RELATED[t[0]])]
+            if o not in terms:
+                terms.append(o)
     names = [t[0] for t in terms]
     nrules = rng.randint(1, 3)
     rules = [rand_expr(rng, rng.randint(1, 2), names, i, nrules) for i in range(nrules)]
@@ -153,6 +166,10 @@ def accepts(G, s):
     return n in ends(rules[0], 0)
 
 
+def accepts_prefix_ok(c):
+    return True
+
+
 def run(ctx):
     quick = ctx.tier == "quick"
     ctx.cov["rule"] = ("random Lark grammars in the supported subset (string and regex terminals, case-insensitive literals incl. ß and s, multi-byte characters, optional/star/plus/alternation in rules, %ignore) x candidate strings up to length 4 over the characters of the terminals: "
@@ -167,13 +184,35 @@ def run(ctx):
     gs = [gen_grammar(ctx.rng) for _ in range(n)]
     jobs, plan = [], []
     for k, G in enumerate(gs):
-        chars = sorted({c for c in ALPHA if any(re.search(re.escape(c), v) or re.fullmatch(v, c) for v in G["terms"].values())} | ({" "} if G["ignore"] else set()) | {"a", "x"})
-        chars = chars[:6]
+        rel = [c for c in ALPHA if any(re.search(re.escape(c), v) or re.fullmatch(v, c) for v in G["terms"].values())]
+        rel.sort(key=lambda c: (-len(c.encode("utf-8")), c))
+        chars = rel[:5] + [c for c in ([" "] if G["ignore"] else []) + ["a", "x"] if c not in rel[:5]]
+        chars = sorted(chars[:6])
         cands = ["".join(x) for L in range(0, 5) for x in itertools.product(chars, repeat=L)]
         if len(cands) > 160:
             cands = cands[:60] + ctx.rng.sample(cands[60:], 100)
         bts = [list(c.encode("utf-8")) for c in cands]
         trunc = [b[:-1] for b in bts if len(b) > len(bytes(b).decode("utf-8", "ignore").encode("utf-8")) or (b and b[-1] >= 0x80)][:10]
+        # byte strings obtained by exchanging bytes between the encodings of the multi-byte characters in play:
+        # either another character's encoding or no UTF-8 at all
+        mb = [list(c.encode("utf-8")) for c in chars if len(c.encode("utf-8")) > 1]
+        mixes = []
+        for e1 in mb:
+            for e2 in mb + [e1]:
+                for pos in range(len(e1)):
+                    for b2 in set(e2):
+                        z = e1[:pos] + [b2] + e1[pos + 1:]
+                        if z != e1 and z not in mixes:
+                            mixes.append(z)
+            for pos in range(1, len(e1)):
+                z = e1[:pos] + e1[pos + 1:]
+                if z not in mixes:
+                    mixes.append(z)
+        if len(mixes) > 40:
+            mixes = ctx.rng.sample(mixes, 40)
+        pre = [list(c.encode("utf-8")) for c in cands if 0 < len(c) <= 1 and accepts_prefix_ok(c)][:3]
+        mixes = mixes + [p + z for p in pre for z in mixes[:10]]
+        trunc = trunc + mixes
         rec = "right" if k % 2 == 0 else "left"
         jobs.append({"queries": [{"op": "lark", "grammar": G["text"], "chars": cands, "bytes": bts + trunc, "recursion": rec, "timeout": 120}]})
         plan.append((G, cands, bts, trunc, rec))
@@ -199,8 +238,16 @@ def run(ctx):
             if gb != want:
                 viol(ctx, "byte_cfg:language", f"byte_cfg accepts utf8({s!r}): {gb}; substitution semantics: {want}", {"kind": "lark", "what": "byte", "grammar": G["text"], "recursion": rec, "string": s, "observed": gb, "expected": want})
         for bs, eb in zip(trunc, o["byte"][len(bts):]):
-            if float(dec_val(eb)) > 0:
-                viol(ctx, "byte_cfg:truncated", f"byte_cfg accepts the truncated byte string {bs}", {"kind": "lark", "what": "byte-trunc", "grammar": G["text"], "recursion": rec, "bytes": bs})
+            try:
+                dec = bytes(bs).decode("utf-8")
+                want = accepts(G, dec)
+            except UnicodeDecodeError:
+                dec, want = None, False
+            ctx.cov["oracle_cases"] += 1
+            ctx.dist("bytes:not-utf8" if dec is None else "bytes:other-utf8")
+            if (float(dec_val(eb)) > 0) != want:
+                viol(ctx, "byte_cfg:truncated" if dec is None else "byte_cfg:language", f"byte_cfg accepts the byte string {bs} ({'not UTF-8' if dec is None else repr(dec)}): {float(dec_val(eb)) > 0}; expected {want}",
+                     {"kind": "lark", "what": "byte-trunc", "grammar": G["text"], "recursion": rec, "bytes": bs, "string": dec or "", "expected": want})
         if not o.get("names_disjoint", True) or not o.get("byte_names_disjoint", True):
             viol(ctx, "names-collide", "terminal and nonterminal names collide in the converted grammar", {"kind": "lark", "what": "names", "grammar": G["text"], "recursion": rec})
         ctx.count_case(G["text"], nontrivial=acc > 0)
